@@ -6,4 +6,4 @@ import (
 	"verif/internal/harness"
 )
 
-func TestProps(t *testing.T) { harness.Main(t, "C08", Matrix, FaultSeq, BadReq, Storm) }
+func TestProps(t *testing.T) { harness.Main(t, "C08", Storm, Matrix, FaultSeq, BadReq) }
